@@ -219,6 +219,8 @@ func checkC16(ctx *Ctx, r *Report) {
 	c09ConstraintsThroughReferences(ctx, r)
 	c10ConstantRefToEnum(ctx, r)
 	c16SecondHunt(ctx, r)
+	c16ThirdHunt(ctx, r)
+	c16DismissalNeedsLostOptions(ctx, r)
 }
 
 func isConstRefSkip(info *types.Info, cond ast.Expr) bool {
@@ -738,4 +740,208 @@ func c16SecondHunt(ctx *Ctx, r *Report) {
 			"__init__ instantiates "+instantiated+", computed by following the references",
 			"__init__ instantiates the built object's own name ("+instantiated+"): for an alias (`AliasInner: typing.TypeAlias = 'Inner'`, a string at run time) the builder raises TypeError: 'str' object is not callable")
 	}
+}
+
+// c16DismissalNeedsLostOptions: the rewriter dismisses the builders that have no option left once the option rules have
+// run ("every option omitted" is how a veneer drops a builder). A builder that never had any option — a struct whose
+// fields are all fixed by the schema — was not dismissed by anybody: the test that drops a builder looks at what the
+// builder had before the rules, not only at what is left. (Shared with C17: builders not selected by a rule are unchanged.)
+func c16DismissalNeedsLostOptions(ctx *Ctx, r *Report) {
+	fn := ctx.LookupMethod("internal/veneers/rewrite", "Rewriter", "applyOptionRules")
+	fd, p := ctx.DeclOf(fn)
+	if fd == nil {
+		r.Undecided("anchor lost: rewrite.Rewriter.applyOptionRules")
+		return
+	}
+	info := p.TypesInfo
+	// variables written before the loop over the rules
+	before := map[types.Object]bool{}
+	var rulesLoop *ast.RangeStmt
+	for _, st := range fd.Body.List {
+		if rs, ok := st.(*ast.RangeStmt); ok && rulesLoop == nil {
+			if nt := namedOf(info.TypeOf(rs.Value)); nt != nil && nt.Obj().Name() == "RewriteRule" {
+				rulesLoop = rs
+				continue
+			}
+		}
+		if rulesLoop == nil {
+			ast.Inspect(st, func(m ast.Node) bool {
+				if as, ok := m.(*ast.AssignStmt); ok {
+					for _, l := range as.Lhs {
+						if root := rootIdent(l); root != nil {
+							before[objOf(info, root)] = true
+						}
+					}
+				}
+				return true
+			})
+		}
+	}
+	if rulesLoop == nil {
+		r.Undecided("anchor changed: applyOptionRules no longer ranges over the rules")
+		return
+	}
+	// the tests on `len(X.Options)` made after the loop over the rules
+	n := 0
+	ast.Inspect(fd.Body, func(m ast.Node) bool {
+		be, ok := m.(*ast.BinaryExpr)
+		if !ok || (be.Op != token.EQL && be.Op != token.NEQ) || be.Pos() < rulesLoop.End() {
+			return true
+		}
+		if c, ok := ast.Unparen(be.X).(*ast.CallExpr); !ok || !isBuiltinCall(info, c, "len") || !strings.HasSuffix(exprString(c.Args[0]), ".Options") {
+			return true
+		}
+		n++
+		// the enclosing condition
+		parents := parentMap(fd)
+		var top ast.Expr = be
+		for {
+			pe, ok := parents[ast.Node(top)].(ast.Expr)
+			if !ok {
+				break
+			}
+			if _, isBin := pe.(*ast.BinaryExpr); !isBin {
+				if _, isParen := pe.(*ast.ParenExpr); !isParen {
+					break
+				}
+			}
+			top = pe
+		}
+		usesBefore := false
+		ast.Inspect(top, func(k ast.Node) bool {
+			if id, ok := k.(*ast.Ident); ok && before[objOf(info, id)] {
+				if _, isVar := objOf(info, id).(*types.Var); isVar && !isParamOf(info, fd, objOf(info, id)) {
+					usesBefore = true
+				}
+			}
+			return true
+		})
+		r.Check(usesBefore, "effects/dismissal-needs-lost-options", "rewrite.Rewriter.applyOptionRules dismisses a builder", be.Pos(), "the test also reads what the builder had before the rules",
+			"applyOptionRules drops every builder without options, whether or not a rule removed them: `OnlyConst: {kind: \"x\"}` (every field fixed) gets a builder from FromAST and loses it here, with no veneer at all — `Main.oc` then takes a raw value instead of a builder")
+		return true
+	})
+	r.Count("dismissal tests of the rewriter", n)
+	r.Floor("dismissal tests of the rewriter", 1)
+}
+
+// c16ThirdHunt: (a) a field that refers to an object whose type is a constant reference (`KA: Kind & "a"`, `k: KA`) is
+// fixed by the schema: structObjectToBuilder tests IsConstantRef on the *resolved* type of the field and adds a
+// constructor constant; (b) the fields of a struct generated from a disjunction are its branches: structObjectToBuilder
+// tests IsStructGeneratedFromDisjunction before it turns concrete scalars into constructor constants, and the Go
+// constructor (defaultsForStructRec) does not preset them either.
+func c16ThirdHunt(ctx *Ctx, r *Report) {
+	fn := ctx.LookupMethod("internal/ast", "BuilderGenerator", "structObjectToBuilder")
+	fd, p := ctx.DeclOf(fn)
+	if fd == nil {
+		r.Undecided("anchor lost: BuilderGenerator.structObjectToBuilder")
+		return
+	}
+	info := p.TypesInfo
+	resolvedVars := map[types.Object]bool{}
+	ast.Inspect(fd.Body, func(m ast.Node) bool {
+		as, ok := m.(*ast.AssignStmt)
+		if !ok || len(as.Lhs) != 1 || len(as.Rhs) != 1 {
+			return true
+		}
+		if c, ok := ast.Unparen(as.Rhs[0]).(*ast.CallExpr); ok {
+			if f := callee(info, c); f != nil && f.Name() == "ResolveToType" {
+				if id, ok := as.Lhs[0].(*ast.Ident); ok {
+					resolvedVars[objOf(info, id)] = true
+				}
+			}
+		}
+		return true
+	})
+	appendsTo := func(body *ast.BlockStmt, field string) bool {
+		found := false
+		ast.Inspect(body, func(k ast.Node) bool {
+			if as, ok := k.(*ast.AssignStmt); ok && len(as.Lhs) == 1 {
+				if ff := fieldOf(info, as.Lhs[0]); ff != nil && ff.Name() == field {
+					found = true
+				}
+			}
+			return true
+		})
+		return found
+	}
+	fixed, branches := false, false
+	var branchTestPos, concretePos token.Pos
+	ast.Inspect(fd.Body, func(m ast.Node) bool {
+		switch x := m.(type) {
+		case *ast.IfStmt:
+			cond := exprString(x.Cond)
+			// (a)
+			ast.Inspect(x.Cond, func(k ast.Node) bool {
+				if c, ok := k.(*ast.CallExpr); ok {
+					if sel, ok := c.Fun.(*ast.SelectorExpr); ok && sel.Sel.Name == "IsConstantRef" {
+						if id, ok := ast.Unparen(sel.X).(*ast.Ident); ok && resolvedVars[objOf(info, id)] && appendsTo(x.Body, "Assignments") {
+							fixed = true
+						}
+					}
+				}
+				return true
+			})
+			if strings.Contains(cond, "IsConcrete") && !concretePos.IsValid() {
+				concretePos = x.Pos()
+			}
+		case *ast.CallExpr:
+			if sel, ok := x.Fun.(*ast.SelectorExpr); ok && sel.Sel.Name == "IsStructGeneratedFromDisjunction" && !branchTestPos.IsValid() {
+				branchTestPos = x.Pos()
+			}
+		}
+		return true
+	})
+	// (b) a variable or condition derived from IsStructGeneratedFromDisjunction guards an append to the options that comes
+	// before the concrete-scalar test
+	if branchTestPos.IsValid() && concretePos.IsValid() && branchTestPos < concretePos {
+		branches = true
+	}
+	r.Count("hunted clauses of builder derivation (3rd round)", 3)
+	r.Check(fixed, "skeleton/ref-to-constant-ref-is-fixed", "ast.BuilderGenerator.structObjectToBuilder fixes references to constant references", fd.Pos(), "a field whose resolved type is a constant reference gets a constructor constant",
+		"structObjectToBuilder only looks for constant references on the field itself: with `Kind: \"a\"|\"b\"; KA: Kind & \"a\"; Main: {k: KA}` the field k — fixed by the schema — becomes an option, and the Python builder starts from k == ''")
+	r.Check(branches, "skeleton/union-wrapper-branches-are-options", "ast.BuilderGenerator.structObjectToBuilder treats the fields of a union wrapper as branches", fd.Pos(), "the struct-generated-from-disjunction test comes before concrete scalars are turned into constructor constants",
+		"structObjectToBuilder turns every concrete scalar field into a constructor constant, also in a struct generated from a disjunction: `x: \"auto\" | int` gives the builder StringOrInt64 constructor{String = \"auto\"} option{Int64}, and Int64(5).Build() is encoded \"auto\"")
+	// Go constructor
+	gfn := ctx.LookupMethod("internal/jennies/golang", "RawTypes", "defaultsForStructRec")
+	gfd, _ := ctx.DeclOf(gfn)
+	if gfd == nil {
+		r.Undecided("anchor lost: golang.RawTypes.defaultsForStructRec")
+		return
+	}
+	skips := false
+	var loop *ast.RangeStmt
+	ast.Inspect(gfd.Body, func(m ast.Node) bool {
+		if rs, ok := m.(*ast.RangeStmt); ok && loop == nil && strings.HasSuffix(exprString(rs.X), ".Struct.Fields") {
+			loop = rs
+		}
+		return true
+	})
+	derived := map[string]bool{}
+	ast.Inspect(gfd.Body, func(m ast.Node) bool {
+		if as, ok := m.(*ast.AssignStmt); ok && len(as.Lhs) == 1 && len(as.Rhs) == 1 && strings.Contains(exprString(as.Rhs[0]), "IsStructGeneratedFromDisjunction") {
+			if strings.HasPrefix(exprString(as.Rhs[0]), "objectType.") {
+				derived[exprString(as.Lhs[0])] = true
+			}
+		}
+		return true
+	})
+	if loop != nil {
+		for _, st := range loop.Body.List {
+			is, ok := st.(*ast.IfStmt)
+			if !ok || !endsInExit(is.Body) {
+				continue
+			}
+			cond := exprString(is.Cond)
+			for v := range derived {
+				if strings.Contains(cond, v) {
+					skips = true
+				}
+			}
+			if strings.Contains(cond, "objectType.IsStructGeneratedFromDisjunction") {
+				skips = true
+			}
+		}
+	}
+	r.Check(skips, "skeleton/union-wrapper-branches-are-options", "golang.RawTypes.defaultsForStructRec does not preset the branches of a union wrapper", gfd.Pos(), "the fields of a struct generated from a disjunction are skipped unless an enclosing default names them",
+		"NewStringOrInt64() presets the constant branch (`String: &\"auto\"`): MarshalJSON writes the first branch that is set, so a wrapper whose Int64 branch is set afterwards is still encoded \"auto\"")
 }
